@@ -42,6 +42,28 @@ def make(p):
             # a batch large enough to cross the internal chunk sizes (20,000 rows in the product kernel, 50,000 in RFM.predict):
             # the first 64 rows are the ones judged, the rest is filler drawn from the same distribution
             Q = torch.cat([Q[:64], torch.randn(p['big'] - 64, d, generator=g)])
+    cat_info = None
+    if p.get('cat'):
+        # mixed data: numerical columns followed by one-hot groups; the leaves use the categorical fast path of their kernel
+        # (identity code vectors), whose value is the dense kernel on the one-hot rows with the stored (block-diagonal) matrix
+        groups = p['cat']
+
+        def onehots(m):
+            cols = []
+            for L_ in groups:
+                idx = torch.randint(0, L_, (m,), generator=g)
+                cols.append(torch.nn.functional.one_hot(idx, L_).float())
+            return torch.cat(cols, dim=1)
+        X = torch.cat([X, onehots(n)], dim=1)
+        Xv = torch.cat([Xv, onehots(Xv.shape[0])], dim=1)
+        Qn = torch.cat([torch.randn(40, d, generator=g), X[:10, :d]])
+        Q = torch.cat([Qn, torch.cat([onehots(40), X[:10, d:]])], dim=1)
+        off, cidx = d, []
+        for L_ in groups:
+            cidx.append(torch.arange(off, off + L_))
+            off += L_
+        cat_info = {'numerical_indices': torch.arange(d), 'categorical_indices': cidx,
+                    'categorical_vectors': [torch.eye(L_) for L_ in groups]}
     dd = X.shape[1]
     if p['task'] == 'reg':
         f = lambda Z: torch.cat([torch.sin(Z[:, :1]), 0.3 * Z[:, 1:2] ** 2, Z[:, :1] * Z[:, 1:2]][: p['outputs']], dim=1)
@@ -63,6 +85,9 @@ def make(p):
                 max_leaf_size=p['L'], device='cpu', verbose=False, random_state=p['dseed'], split_method=p['method'],
                 n_trees=p['trees'], overlap_fraction=p['f'], classification_mode=p['mode'], use_temperature_tuning=False,
                 split_temperature=None, tuning_metric=None)
+    if cat_info is not None:
+        model['fast_categorical'] = True
+        ctor['categorical_info'] = cat_info
     if p['exact']:
         v = torch.zeros(dd)
         v[p['dseed'] % d] = 1.0
@@ -369,6 +394,13 @@ def gen_cases(run):
         cases.append(dict(family='fitted-models', task=task, mode=mode, kernel=list(KERNELS[k]), q=1.0, diag=False, adaptive=False,
                           bandwidth=5.0, iters=1, L=10 ** 6, n=60, d=3, method='random', trees=3, f=0.0, outputs=2, classes=3,
                           exact=False, dseed=r.randint(0, 10 ** 6)))
+    # mixed numerical / one-hot data with the categorical fast path of the leaf kernels (full feature matrix, >= 1 iteration)
+    cat_kernels = [k for k in KERNELS if k[0] in ('l2', 'l1', 'lpq')]
+    for k in range(3 if run.tier == 'quick' else 18):
+        cases.append(dict(family='fitted-models', task=['reg', 'class'][k % 2], mode='zero_one', kernel=list(cat_kernels[k % len(cat_kernels)]), q=1.0,
+                          diag=False, adaptive=False, bandwidth=r.choice([5.0, 10.0]), iters=r.choice([1, 2]), L=[40, 10 ** 6, 30][k % 3],
+                          n=r.choice([80, 120]), d=r.randint(2, 3), method=r.choice(['random', 'pca']), trees=1, f=0.0, outputs=r.randint(1, 2),
+                          classes=3, exact=False, cat=[3, 2] if k % 2 else [4], dseed=r.randint(0, 10 ** 6)))
     # leaves fitted by the logistic solver (binary, zero_one): raw outputs are logits, decoded by the sigmoid in both APIs
     for k in range(3 if run.tier == 'quick' else 16):
         cases.append(dict(family='fitted-models', task='class', mode='zero_one', kernel=list(KERNELS[k % len(KERNELS)]), q=1.0, diag=False,
